@@ -1,0 +1,13 @@
+//go:build verif
+
+package netmap
+
+import "time"
+
+// VerifDrain blocks until every task submitted to the processor's worker pool has finished
+// (the pool is released and rebooted). Used by the external conformance harness (/verif, family
+// irproc) to observe the chain calls of one event deterministically.
+func (np *Processor) VerifDrain() {
+	_ = np.pool.ReleaseTimeout(time.Minute)
+	np.pool.Reboot()
+}
